@@ -1013,6 +1013,20 @@ SEEDS["C08_pep604_union_branch_removed"] = ("C08", [(TG, """    elif _UnionType 
         check_union(argname, value, expected_type, memo)
 """, "")], "C08.8")
 
+# defects planted *on top of* wave-7 refactorings (coordinated interface changes): the normalised form must still carry them
+SEEDS["C08_parametric_flag_never_cleared"] = ("C08", [("@diff", "benign/S1/4.diff", None), (P, """                set_treeflatten_memo(False)""", """                set_treeflatten_memo(True)""")], "C08.7")
+SEEDS["C07_callinfo_drops_kwargs"] = ("C07", [("@diff", "benign/S2/3.diff", None), (D, """                        _CallInfo(args, kwargs, bound.arguments, memos)""", """                        _CallInfo(args, {}, bound.arguments, memos)""")], "C07")
+SEEDS["C11_settings_record_ignores_typechecker"] = ("C11", [("@diff", "benign/S6/2.diff", None), (H, """        return cls(modules, _HookSettings(Typechecker(typechecker), finder))""", """        return cls(modules, _HookSettings(Typechecker(None), finder))""")], "C11.4")
+SEEDS["C13_stage_helper_called_with_wrong_stage"] = ("C13", [("@diff", "benign/S2/2.diff", None), (D, """                            _STAGE_PARAMETERS,""", """                            _STAGE_RETURN,""")], "C13.3")
+SEEDS["C04_result_record_failed_check_not_rolled_back"] = ("C04", [("@diff", "benign/S3/1.diff", None), (A, """        if not check.ok:
+            set_shape_memo(*backups)
+        return check.message""", """        return check.message""")], "C04.1")
+SEEDS["C04_rollback_cm_restores_on_the_wrong_exit"] = ("C04", [("@diff", "benign/RX/2.diff", None), (A, """        if exc_type is not None:
+            self.restore()""", """        if exc_type is None:
+            self.restore()""")], "C04.1")
+SEEDS["C05_top_helper_returns_bottom_frame"] = ("C05", [("@diff", "benign/S1/3.diff", None), (S, """    return memo_stack[-1]""", """    return memo_stack[0]""")], "C05")
+SEEDS["C10_transformer_factory_ignores_own_checker"] = ("C10", [("@diff", "benign/S6/1.diff", None), (H, """        return JaxtypingTransformer(typechecker=self)""", """        return JaxtypingTransformer(typechecker=Typechecker(None))""")], "C10")
+
 # ---- variants modelled on independent sub-agent seeds (see /verif/seeded/)
 SEEDS["C16_skip_already_seen_leaf_objects"] = ("C16", [(P, """        for leaf_index, leaf in enumerate(leaves):
             if cls.structure is None:""", """        checked_ids = set()
